@@ -55,10 +55,10 @@ CASE_NAMES = ['"ORDERS"', '"Orders"', '"orders"', '"oRders"']
 SPECIAL_POOLS = [
     # names equal up to case in one join layer; duplicated / complementary boolean operands; duplicated CTE bodies
     [
-        {"api": "optimize", "sql": 'SELECT * FROM "ORDERS" JOIN "Orders" ON "ORDERS".id = "Orders".id JOIN "orders" ON "ORDERS".id = "orders".id JOIN "oRders" ON "ORDERS".id = "oRders".id', "read": ""},
+        {"api": "optimize_noschema", "sql": 'SELECT x.a FROM x JOIN orders AS "Orders" ON x.a = "Orders".a JOIN orders AS "orders" ON x.a = "orders".a JOIN orders AS "ORDERS" ON x.a = "ORDERS".a JOIN orders AS "oRders" ON x.a = "oRders".a', "read": "postgres"},
         {"api": "simplify", "sql": 'SELECT 1 WHERE ("A" OR "a" OR b) AND ("a" OR "A") AND (b OR NOT b OR c) AND ("B" = 1 OR "b" = 1) AND (x AND y OR x AND NOT y)', "read": ""},
         {"api": "optimize", "sql": "WITH c1 AS (SELECT a FROM t), C1 AS (SELECT a FROM t), c2 AS (SELECT a FROM u) SELECT * FROM c1, C1, c2, (SELECT a FROM t) AS d, (SELECT a FROM u) AS e", "read": "snowflake"},
-        {"api": "optimize", "sql": 'SELECT * FROM x JOIN y ON x.b = y.b JOIN z ON x.a = z.a JOIN "T" ON "T".a = x.a JOIN t ON t.a = x.a', "read": ""},
+        {"api": "optimize_joins", "sql": 'SELECT * FROM x JOIN y ON x.b = y.b JOIN z ON x.a = z.a JOIN n AS "T" ON "T".a = x.a JOIN n AS "t" ON "t".a = x.a JOIN n AS "U" ON x.a = "U".a JOIN n AS "u" ON x.a = "u".a JOIN n AS "V" ON "T".a = "V".a JOIN n AS "v" ON "T".a = "v".a', "read": "postgres"},
         {"api": "lineage", "sql": "SELECT s.a, s.b + u.d AS k FROM (SELECT a, b FROM t UNION ALL SELECT a, a FROM u) AS s JOIN u ON s.a = u.a", "read": ""},
     ],
     # pipe syntax (parser-generated CTE names), generated aliases
